@@ -14,6 +14,7 @@ Both return an `Exp`:
     reads, writes  {(accessor, off, mnemonic, field)}   field = (class, name, type) exactly as the field id says
     strings        {(method, off, mnemonic, value)}
     news, consts   {(method, off, type descriptor)}     new-instance / const-class
+    after_payload  {(method, off)} reference instructions located behind a switch / array-data payload inside the method
     pool_strings   union of the string pools (from_bytes only, else None)
 Offsets are byte offsets from the start of the method's instruction array.
 """
@@ -29,12 +30,13 @@ class Exp:
         self.fields = {}
         self.calls, self.reads, self.writes = set(), set(), set()
         self.strings, self.news, self.consts = set(), set(), set()
+        self.after_payload = set()
         self.pool_strings = None
 
     def relations(self):
         return {"calls": self.calls, "reads": self.reads, "writes": self.writes, "strings": self.strings,
                 "news": self.news, "consts": self.consts, "methods": self.methods, "coded": self.coded,
-                "fields": set(self.fields), "classes": set(self.dex_of_class)}
+                "fields": set(self.fields), "classes": set(self.dex_of_class), "after_payload": self.after_payload}
 
 
 def _classify(exp, me, off, name, tgt):
@@ -51,6 +53,9 @@ def _classify(exp, me, off, name, tgt):
         exp.news.add((me, off, tgt))
     elif name == "const-class":
         exp.consts.add((me, off, tgt))
+    else:
+        return False
+    return True
 
 
 def expected(model):
@@ -66,24 +71,32 @@ def expected(model):
             if m.body is None:
                 continue
             exp.coded.add(me)
+            behind = False
             for off, (op, tgt) in X.layout(m.body):
+                if op == X.PAYLOAD:
+                    behind = True
+                    continue
                 if X.kind_of(op) == "method":
                     tgt = (tgt[0], tgt[1], X.mdesc(tgt[2], tgt[3]))
-                _classify(exp, me, off, op, tgt)
+                if _classify(exp, me, off, op, tgt) and behind:
+                    exp.after_payload.add((me, off))
     return exp
 
 
 def sweep(insns):
-    """Linear reference sweep: yields (byte offset, Ins) for every real instruction; payloads are skipped."""
+    """Linear reference sweep: yields (byte offset, Ins, behind) for every real instruction; payloads are skipped;
+    behind = a payload was met before this instruction."""
     off = 0
     n = len(insns)
+    behind = False
     while off < n:
         u0 = insns[off] | (insns[off + 1] << 8)
         if u0 in (0x0100, 0x0200, 0x0300):
             off += 2 * D.payload_units(insns, off)
+            behind = True
             continue
         i = D.decode(insns, off)
-        yield off, i
+        yield off, i, behind
         off += i.length
 
 
@@ -105,7 +118,7 @@ def from_bytes(raws):
                 if meth.code is None:
                     continue
                 exp.coded.add(me)
-                for off, ins in sweep(meth.code.insns):
+                for off, ins, behind in sweep(meth.code.insns):
                     if ins.kind == "method":
                         t = r.methods[ins.ref]
                         tgt = (t[0], t[1], "(" + "".join(t[3]) + ")" + t[2])
@@ -117,7 +130,8 @@ def from_bytes(raws):
                         tgt = r.types[ins.ref]
                     else:
                         continue
-                    _classify(exp, me, off, ins.name, tgt)
+                    if _classify(exp, me, off, ins.name, tgt) and behind:
+                        exp.after_payload.add((me, off))
     return exp
 
 
